@@ -16,7 +16,8 @@ Exception or a BaseException-only class) or call request.loseConnection() before
 False-alarm guards: the harness stops delivering after the server called loseConnection(), as a TCP
 transport stops reading (otherwise line-buffer leftovers after a 400 would be parsed on the next
 delivery); while the channel pauses its transport (more than 16 KiB buffered behind a deferred
-request) the harness holds the remaining segments and continues after the resume; 30 % of the
+request) the harness holds the remaining segments and continues after the resume; in a quarter of the split runs the transport pauses the channel (send buffer full) after one piece
+and resumes later, the harness holding the bytes meanwhile; 30 % of the
 streams run (both deliveries) on a transport that reports connectionLost from inside the server's
 loseConnection(); in the Site
 configuration the value of the `Date` header (wall clock) is masked.
@@ -42,7 +43,7 @@ ASSUMPTIONS = ["trusted base: netsim.SimTransport models a TCP transport (stops 
 SHARDS = {"quick": 4, "thorough": 16}
 FLOORS = {"split_runs_compared": 2000, "requests_compared": 2000, "streams_with_400": 20, "streams_with_deferred_answer": 20,
           "streams_with_100_continue": 5, "limit_streams": 10, "limit_streams_chunkline": 3,
-          "streams_with_application_exception": 20, "streams_with_application_close": 20}
+          "streams_with_application_exception": 20, "streams_with_application_close": 20, "split_runs_with_transport_pause": 2000}
 READY = True
 
 
@@ -185,8 +186,19 @@ class Server:
             self.transport.disconnected = True
             self.proto.connectionLost(reason or failure.Failure(error.ConnectionLost("simulated")))
 
+    def transport_pause(self):
+        """The transport's send buffer is full: it pauses its producer, the channel."""
+        if not self.closed and self.transport.producer is not None:
+            self.transport.sim_pause_producer()
+
+    def transport_resume(self):
+        if not self.lost and self.transport.producer is not None and self.transport.producer_paused:
+            self.transport.sim_resume_producer()
+        self._drain_held()
+
     def quiesce(self, max_steps=10000):
         n = 0
+        self.transport_resume()  # every pause is matched by a resume before the run is judged
         while (self.pending or (self.held and not self.transport.reading_paused)) and n < max_steps:
             if not self.finish_one():
                 self._drain_held()
@@ -260,7 +272,7 @@ def _mask(config, out):
     return re.sub(rb"\r\nDate: [^\r\n]*", b"\r\nDate: <masked>", out)
 
 
-def run_delivery(config, pieces, finish_points=(), sync_close=False):
+def run_delivery(config, pieces, finish_points=(), sync_close=False, pause_points=None):
     """Deliver `pieces`; finish one deferred answer after piece i for every i in finish_points.
     -> observation dict."""
     s = Server(config, sync_close=sync_close)
@@ -270,6 +282,8 @@ def run_delivery(config, pieces, finish_points=(), sync_close=False):
             s.feed(p)
             if i in fp:
                 s.finish_one()
+            if pause_points and i in pause_points:
+                (s.transport_pause if pause_points[i] == "pause" else s.transport_resume)()
         s.quiesce()
         obs = {
             "requests": s.records,
@@ -285,8 +299,10 @@ def run_delivery(config, pieces, finish_points=(), sync_close=False):
         s.cleanup()
 
 
-def compare(ctx, config, stream, whole, pieces, finish_points, how, nontrivial=True, sync_close=False):
-    got = run_delivery(config, pieces, finish_points, sync_close)
+def compare(ctx, config, stream, whole, pieces, finish_points, how, nontrivial=True, sync_close=False, pause_points=None):
+    got = run_delivery(config, pieces, finish_points, sync_close, pause_points)
+    if pause_points:
+        ctx.count("split_runs_with_transport_pause")
     ctx.count("split_runs_compared")
     ctx.count("requests_compared", len(whole["requests"]))
     ctx.evaluated()
@@ -306,7 +322,7 @@ def compare(ctx, config, stream, whole, pieces, finish_points, how, nontrivial=T
     else:
         key = "segmentation-changes-output"
     ctx.violation(key, "split delivery differs from whole delivery in: " + ", ".join(diffs), {
-        "config": config, "sync_close": sync_close, "stream": stream, "pieces": pieces, "finish_points": sorted(finish_points), "how": how,
+        "config": config, "sync_close": sync_close, "stream": stream, "pieces": pieces, "finish_points": sorted(finish_points), "pause_points": pause_points, "how": how,
         "differs_in": diffs, "expected_whole": whole, "observed_split": got})
     return False
 
@@ -447,7 +463,13 @@ def check_stream(ctx, rng, config, stream, desc, extra_marks=(), sync_close=Fals
         if whole["n_deferred"] and rng.random() < 0.7:
             fps = set(rng.sample(range(len(pieces)), min(len(pieces), rng.randint(1, 3))))
         ctx.count("splits_" + how.split("-")[0])
-        ok = compare(ctx, config, stream, whole, pieces, fps, how, nontrivial, sync_close)
+        pps = None
+        if len(pieces) >= 2 and rng.random() < 0.25:  # the transport stops reading after piece p and resumes after piece q (or at the end)
+            pp = rng.randrange(len(pieces) - 1)
+            pps = {pp: "pause"}
+            if rng.random() < 0.6:
+                pps[rng.randrange(pp + 1, len(pieces))] = "resume"
+        ok = compare(ctx, config, stream, whole, pieces, fps, how, nontrivial, sync_close, pps)
         k += 1
         if not ok:
             break
@@ -504,4 +526,5 @@ def replay(ctx, w):
     sc = bool(x.get("sync_close"))
     whole = run_delivery(x["config"], [stream], (), sc)
     if pieces:
-        compare(ctx, x["config"], stream, whole, pieces, set(x.get("finish_points", [])), x.get("how", "replay"), True, sc)
+        pps = {int(k): v for k, v in (x.get("pause_points") or {}).items()} or None
+        compare(ctx, x["config"], stream, whole, pieces, set(x.get("finish_points", [])), x.get("how", "replay"), True, sc, pps)
